@@ -43,6 +43,19 @@ model's backward chunk entry at index MaxUint32 would lose the tail of a larger 
 
 def fwdAll (j : Journal) (w : Bool) : List Rec := (flat j).filter (keepW w)
 
+/-- **the offset of a request is applied once**: both query loops (backend and RPC) hand back a continuation request whose
+`Offset` is 0 (regenerated fact `continuationOffsetZero`), and so does the model's `query` in every branch — a client that sends
+the server's `NextQueryRequest` verbatim (as `api.Select` and the shell do) continues where the page ended instead of skipping
+`k` events again on every page. -/
+theorem continuation_request_offset_zero :
+    continuationOffsetZero = true ∧
+    ∀ (M : Nat) (srv : Server) (req : Req), (query M srv req).2.next.offset = 0 := by
+  refine ⟨by decide, ?_⟩
+  intro M srv req
+  simp only [query]
+  repeat' split
+  all_goals rfl
+
 /-- **head_plus_k**: `head` with offset +k skips exactly the first k matching events. -/
 theorem head_plus_k (name : Nat) (j : Journal) (w : Bool) (k n : Nat) (hs : Sorted j) :
     readN n (offset (applyCorner (mk1 name j w) false) (k : Int)) = ((fwdAll j w).drop k).take n :=
